@@ -128,7 +128,9 @@ class G2:
             args = None
             if r.random() < 0.6:
                 args = self.call_args(d - 1, term=True)
-            return ("term", self.ident(), None, args)
+            # a term ATTRIBUTE may be referenced wherever the value is not written into a pattern: as a call argument
+            # (positional or of a term call), not as a placeable of its own
+            return ("term", self.ident(), self.ident() if (in_args and r.random() < 0.4) else None, args)
         if k < 0.80:
             return ("fn", r.choice(FUNCS), self.call_args(d - 1))
         return ("pl", self.expression(d - 1))
